@@ -31,11 +31,15 @@ def quiet(prefix, ms):
     return {"op": "quiet", "prefix": prefix, "ms": ms}
 
 
-def run_sessions(scripts, procs=12, timeout=60):
-    """Runs every script in its own driver process. Returns {id: {"events": [...], "rc": rc, "stderr": tail}}."""
+def run_sessions(scripts, procs=12, timeout=60, race=False):
+    """Runs every script in its own driver process. Returns {id: {"events": [...], "rc": rc, "stderr": tail}}.
+    With race=True the driver built with the Go race detector is used; its reports are returned in "races"."""
     run = vlib.scratch("uci")
-    drv = vlib.driver()
+    drv = vlib.driver(race=race)
     out = {}
+    env = dict(os.environ)
+    if race:
+        env["GORACE"] = "halt_on_error=0 exitcode=0"
 
     def one(sc):
         sf = os.path.join(run, "s%d.json" % sc["id"])
@@ -44,10 +48,12 @@ def run_sessions(scripts, procs=12, timeout=60):
             json.dump(sc, fh)
         try:
             p = subprocess.run([drv, "uci-session", "-script", sf, "-out", of], cwd=run, stdout=subprocess.DEVNULL,
-                               stderr=subprocess.PIPE, timeout=timeout)
-            rc, err = p.returncode, p.stderr.decode(errors="replace")[-3000:]
+                               stderr=subprocess.PIPE, timeout=timeout, env=env)
+            full = p.stderr.decode(errors="replace")
+            rc, err = p.returncode, full[-3000:]
+            races = ["WARNING: DATA RACE" + b.split("==================")[0] for b in full.split("WARNING: DATA RACE")[1:]] if race else []
         except subprocess.TimeoutExpired:
-            rc, err = -9, "session process timed out"
+            rc, err, races = -9, "session process timed out", []
         ev = []
         if os.path.exists(of):
             for l in open(of):
@@ -55,7 +61,7 @@ def run_sessions(scripts, procs=12, timeout=60):
                     ev.append(json.loads(l))
                 except ValueError:
                     pass
-        return sc["id"], {"events": ev, "rc": rc, "stderr": err}
+        return sc["id"], {"events": ev, "rc": rc, "stderr": err, "races": races}
     try:
         with concurrent.futures.ThreadPoolExecutor(max_workers=procs) as ex:
             for sid, r in ex.map(one, scripts):
